@@ -92,7 +92,62 @@ def run_chi(case):
     return out
 
 
+def sampling_check(case):
+    """sampling: row k is drawn from the underlying model at the parameters shifted by covariate row k (rows of the
+    individuals interleaved: A, B, C, A, B, C, ...)"""
+    from scipy import stats
+    s = Sub(**case['sub'])
+    n, reps = case['n_ids'], 240
+    theta = case['theta']
+    for v in [s.par_value(theta, 1, d, i, case['chis'][i]) for i in range(n) for d in range(s.nd)] if s.kind in ('G', 'LN') else []:
+        if v <= 0:
+            return None
+    m = s.build()
+    if hasattr(m, 'set_n_ids'):
+        m.set_n_ids(n)
+    C = np.array([case['chis'][k % n] for k in range(reps * n)], dtype=float)
+    x = np.asarray(m.sample(np.array(theta, dtype=float), n_samples=reps * n, seed=case.get('seed', 5), covariates=C),
+                   dtype=float)
+    if x.shape != (reps * n, s.nd):
+        return 'sample(n_samples=%d) with one covariate row per sample has shape %s' % (reps * n, x.shape)
+    for d in range(s.nd):
+        if s.kind == 'P':
+            want = np.array([s.par_value(theta, 0, d, k % n, case['chis'][k % n]) for k in range(reps * n)])
+            if not np.allclose(x[:, d], want, rtol=1e-12, atol=1e-12):
+                return 'samples of a pooled dimension are not the pooled value shifted by the covariates of their own row'
+        elif s.kind == 'H':
+            # sample k is the shifted value of SOME individual's row, every row about equally often
+            rows = [[s.par_value(theta, r, d, k % n, case['chis'][k % n]) for r in range(n)] for k in range(reps * n)]
+            which = [next((r for r in range(n) if abs(x[k, d] - rows[k][r]) <= 1e-12 * (1 + abs(rows[k][r]))), None)
+                     for k in range(reps * n)]
+            if any(w is None for w in which):
+                return 'a sample of a heterogeneous dimension is none of the individuals\' values shifted by its own covariates'
+            clear = [k for k in range(reps * n) if len(set(round(v, 9) for v in rows[k])) == n]
+            if n > 1 and len(clear) >= 200:
+                cnt = [sum(1 for k in clear if which[k] == r) for r in range(n)]
+                tot = len(clear)
+                if min(cnt) < tot / n - 6 * math.sqrt(tot * (1 / n) * (1 - 1 / n)):
+                    return 'heterogeneous samples pick the individuals with frequencies %r out of %d' % (cnt, tot)
+        elif s.centered:
+            z = []
+            for k in range(reps * n):
+                mu = s.par_value(theta, 0, d, k % n, case['chis'][k % n])
+                sg = s.par_value(theta, 1, d, k % n, case['chis'][k % n])
+                if s.kind == 'LN' and x[k, d] <= 0:
+                    return 'a log-normal sample is not positive'
+                z.append(((math.log(x[k, d]) if s.kind == 'LN' else x[k, d]) - mu) / sg)
+            if stats.kstest(z, 'norm').pvalue < 1e-6:
+                return ('samples standardised with the parameters shifted by the covariates of their own row are not '
+                        'standard normal (KS p = %.2e)' % stats.kstest(z, 'norm').pvalue)
+        elif stats.kstest(x[:, d], 'norm').pvalue < 1e-6:
+            return 'samples of a non-centred dimension are not standard normal'
+    return None
+
+
 def direct_checks(case, res):
+    d = sampling_check(case)
+    if d:
+        return d
     s = Sub(**case['sub'])
     n_pop, n_cov = s.n_pop(), s.n_cov()
     sel = s.selection()
@@ -135,6 +190,12 @@ def direct_checks(case, res):
         if not np.allclose(psi, np.array(res['psi']), rtol=1e-12, atol=0):
             return 'with all %s zero the individual parameters are %r, the underlying model gives %r' % (
                 case['zero'], res['psi'], psi.tolist())
+    # individual parameters: every individual through ITS OWN shifted population parameters
+    want = [[s.psi_value(theta, i, d, case['X'][i][d], case['chis'][i]) if (not s.centered or s.special())
+             else case['X'][i][d] for d in range(s.nd)] for i in range(case['n_ids'])]
+    if not np.allclose(np.array(res['psi'], dtype=float), np.array(want, dtype=float), rtol=1e-10, atol=1e-12):
+        return ('individual parameters %r; transforming every individual with its own covariate-shifted population '
+                'parameters gives %r' % (res['psi'], want))
     return None
 
 
@@ -243,7 +304,7 @@ def run(ck):
         pr = props(case, res, exp)
         if isinstance(pr, str):
             ck.violation(key_of(case, ''), pr, case)
-        elif pr is not None and i % 2 == 0:
+        elif pr is not None and (i % 2 == 0 or not Sub(**case['sub']).centered):
             cases.append((label, pr))
     ck.cov['rule'] = ('covariate models over Gaussian / log-normal (centred and non-centred), pooled and heterogeneous '
                       'underlying models, n_dim 1-3, 1-3 covariates, default or random selections (reordered, with '
